@@ -587,6 +587,10 @@ def reference_positions() -> List[Tuple[str, str, Dict[str, Any]]]:
     add("root-entry", "action", lambda c: c.update(entry=[N]))
     add("nested-state-entry", "action", lambda c: c["states"].update(b={"initial": "p", "states": {"p": {"initial": "q", "states": {"q": {"entry": [N]}}}}}))
     add("parallel-region-exit", "action", lambda c: c["states"].update(b={"type": "parallel", "states": {"r1": {"initial": "p", "states": {"p": {"exit": [N]}}}, "r2": {}}}))
+    # a state DECLARED final can still carry handlers, an invoke, and (the engine then treats it as compound) children
+    add("final-state-on-actions", "action", lambda c: c["states"].update(b={"type": "final", "on": {"X": {"actions": [N]}}}))
+    add("final-state-invoke-onDone-actions", "action", lambda c: c["states"].update(b={"type": "final", "invoke": {"src": "svc", "onDone": {"actions": [N]}}}))
+    add("final-declared-state-with-children-entry", "action", lambda c: c["states"].update(b={"type": "final", "initial": "k", "states": {"k": {"entry": [N]}}}))
     # ---- guards: plain, and inside composites of depth 1..3 in every operand spelling
     def g_on(c, g, key="guard"):
         c["states"]["a"]["on"]["E"][key] = g
@@ -616,7 +620,9 @@ def reference_positions() -> List[Tuple[str, str, Dict[str, Any]]]:
     add("invoke-onDone-guard", "guard", lambda c: c["states"].update(b={"invoke": {"src": "svc", "onDone": {"target": "a", "guard": {"type": "not", "children": [{"type": "and", "children": [N]}]}}}}))
     add("invoke-onError-guard", "guard", lambda c: c["states"].update(b={"invoke": {"src": "svc", "onError": {"target": "a", "guard": N}}}))
     add("root-on-guard", "guard", lambda c: c.update(on={"R": {"target": ".b", "guard": N}}))
+    add("final-state-on-guard", "guard", lambda c: c["states"].update(b={"type": "final", "on": {"X": {"target": "#d.a", "guard": N}}}))
     # ---- services
+    add("final-state-invoke-src", "service", lambda c: c["states"].update(b={"type": "final", "invoke": {"src": N}}))
     add("invoke-src", "service", lambda c: c["states"].update(b={"invoke": {"src": N, "onDone": "a"}}))
     add("invoke-list-second", "service", lambda c: c["states"].update(b={"invoke": [{"src": "svc"}, {"src": N, "id": "second"}]}))
     add("nested-invoke-src", "service", lambda c: c["states"].update(b={"initial": "p", "states": {"p": {"invoke": {"src": N}}}}))
